@@ -1908,6 +1908,9 @@ class Module(ABC):
         for key in channel.channel_states:
             self.base.nodes.loc[self._nodes_in_view, key] = channel.channel_states[key]
 
+        # The view through which the channel was inserted knows the channel.
+        self._update_view()
+
     def delete_channel(self, channel: Channel):
         """Remove a channel from the module.
 
